@@ -57,7 +57,8 @@ CLAIMED = {
             'reading the serialisation gives back exactly the tree (no caller string can add, remove or re-parent an element), incl. the <rpc> '
             'envelope and its message-id; and for ALL argument values of the base-namespace operations (Model/Builders, compared with the real Manager byte '
             'for byte on random arguments): what is built is well-formed, read back exactly, in RFC order, with option values inside their enumerations; likewise for the '
-            'retrieval builders (Model/Retrieve: get / get-config with XPath / subtree / list / element filters and with-defaults, dispatch, create-subscription). Modelled, not verified: lxml serialisation and an XML reader (compared byte for byte / tree for tree '
+            'remaining standard operations (Model/Retrieve: get / get-config with XPath / subtree / list / element filters and with-defaults, get-schema, dispatch, rpc, create-subscription, '
+            'the flowmon power operations, validate / copy-config with element arguments - with Model/Builders every entry of manager.OPERATIONS). Modelled, not verified: lxml serialisation and an XML reader (compared byte for byte / tree for tree '
             'with lxml and expat each run).',
             NOTE + 'parametricity of request builders in their string arguments is sampled (26 templates x nasty strings per run, each call issued twice), not proved.', 'DESIGN.md 5/C07'),
     'C09': (T + ': finite gating table (decide +kernel) + gate semantics for all capability lists',
